@@ -27,8 +27,10 @@ func init() {
 			"canonicalised with gofmt and deduplicated (state = canonical text); each distinct canonical file is pushed through Parse/Fprint, explicit Decorator+Restorer on a shared populated FileSet (also: one Restorer restoring two files before either is printed; a Restorer with Extras; the Decorate/DecorateFile/RestoreFile helpers and a named FileRestorer), " +
 			"ParseFile with 3 parser modes and (k<=1) ParseDir; plus one big file made of the declarations of all import-free templates (thorough: with every single comment insertion); in the quick tier files with two insertions go through the three principal entry points only (Parse+Fprint, shared FileSet, one Restorer for two files); non-trivial = canonical file with at least one insertion",
 		Assumptions: []string{"go/format of this toolchain defines 'gofmt canonical'", "comment texts range over the alphabet only", "templates are the committed corpus"},
-		Units:       func(tier string) []string { return append(gapUnits(gen.Templates(), c01Shards), "big-file#0/4", "big-file#1/4", "big-file#2/4", "big-file#3/4") },
-		Run:         runC01,
+		Units: func(tier string) []string {
+			return append(gapUnits(gen.Templates(), c01Shards), "big-file#0/4", "big-file#1/4", "big-file#2/4", "big-file#3/4")
+		},
+		Run: runC01,
 		Check: func(c core.Case) core.Outcome {
 			g := decodeGap(c)
 			return checkC01(g.Src, true, true)
